@@ -70,38 +70,21 @@ Ltac norm := repeat (progress (flat; cases; flat; bytype; flat; inst; flat)).
 
 (* ---------------------------------------------------------------- instance-side lemmas *)
 
+Lemma int_type x : has_type_in x [TInt] = true -> exists z, x = JInt z.
+Proof. destruct x; simpl; try discriminate; eauto. Qed.
 Lemma as_int_of_type x : has_type_in x [TInt] = true -> exists z, as_int x = Some z.
+Proof. intros T. destruct (int_type x T) as [z ->]. eexists; reflexivity. Qed.
+Lemma int_val_ge x lo : has_type_in x [TInt] = true -> num_ge x lo = true -> int_doc lo None x.
 Proof.
-  destruct x; simpl; try discriminate; eauto. destruct f; simpl; try discriminate.
-  destruct (Z.eqb (num mod Z.pos den) 0); [eauto|discriminate].
-Qed.
-Lemma num_ge_as_int x z lo : as_int x = Some z -> num_ge x lo = true -> (lo <= z)%Z.
-Proof.
-  destruct x; simpl; try discriminate.
-  - intros [= ->] H. apply Z.leb_le; exact H.
-  - destruct f; simpl; try discriminate. destruct (Z.eqb (num mod Z.pos den) 0) eqn:E; [|discriminate].
-    intros [= <-] H. apply Z.leb_le in H. apply Z.eqb_eq in E.
-    apply Z.div_le_lower_bound; lia.
-Qed.
-Lemma num_le_as_int x z hi : as_int x = Some z -> num_le x hi = true -> (z <= hi)%Z.
-Proof.
-  destruct x; simpl; try discriminate.
-  - intros [= ->] H. apply Z.leb_le; exact H.
-  - destruct f; simpl; try discriminate. destruct (Z.eqb (num mod Z.pos den) 0) eqn:E; [|discriminate].
-    intros [= <-] H. apply Z.leb_le in H. apply Z.eqb_eq in E.
-    apply Z.div_le_upper_bound; lia.
-Qed.
-Lemma int_val_ge x lo : has_type_in x [TInt] = true -> num_ge x lo = true -> int_val lo None x.
-Proof.
-  intros T G. destruct (as_int_of_type x T) as [z E]. exists z. repeat split; auto.
-  eapply num_ge_as_int; eauto.
+  intros T G. destruct (int_type x T) as [z ->]. exists z. repeat split; auto.
+  simpl in G. apply Z.leb_le; exact G.
 Qed.
 Lemma int_val_range x lo hi :
-  has_type_in x [TInt] = true -> num_ge x lo = true -> num_le x hi = true -> int_val lo (Some hi) x.
+  has_type_in x [TInt] = true -> num_ge x lo = true -> num_le x hi = true -> int_doc lo (Some hi) x.
 Proof.
-  intros T G L. destruct (as_int_of_type x T) as [z E]. exists z. repeat split; auto.
-  - eapply num_ge_as_int; eauto.
-  - eapply num_le_as_int; eauto.
+  intros T G L. destruct (int_type x T) as [z ->]. exists z. simpl in G, L. repeat split; auto.
+  - apply Z.leb_le; exact G.
+  - apply Z.leb_le; exact L.
 Qed.
 
 Fixpoint strs_of (vs : list json) : list string :=
@@ -202,19 +185,19 @@ Ltac use_keys :=
 Ltac split_or H := destruct H as [H|H]; flat.
 Ltac the_or := match goal with H : _ \/ _ |- _ => destruct H as [H|H]; flat end.
 
-Lemma opt_int_min_0_shape j : VK K_opt_int_min_0 j -> j = JNull \/ int_val 0 None j.
+Lemma opt_int_min_0_shape j : VK K_opt_int_min_0 j -> j = JNull \/ int_doc 0 None j.
 Proof.
   unfold VK. intros H. denote_in H (unf_in [K_opt_int_min_0]) 6. flat. the_or.
   - right. use_ge.
   - left. is_null.
 Qed.
-Lemma opt_int_min_1_shape j : VK K_opt_int_min_1 j -> j = JNull \/ int_val 1 None j.
+Lemma opt_int_min_1_shape j : VK K_opt_int_min_1 j -> j = JNull \/ int_doc 1 None j.
 Proof.
   unfold VK. intros H. denote_in H (unf_in [K_opt_int_min_1]) 6. flat. the_or.
   - right. use_ge.
   - left. is_null.
 Qed.
-Lemma int_size_shape j : VK K_int_size j -> int_val 1 (Some 64%Z) j.
+Lemma int_size_shape j : VK K_int_size j -> int_doc 1 (Some 64%Z) j.
 Proof. unfold VK. intros H. denote_in H (unf_in [K_int_size]) 6. flat. use_range. Qed.
 Lemma byte_order_shape j : VK K_byte_order j -> str_in byte_order_names j.
 Proof. unfold VK. intros H. denote_in H (unf_in [K_byte_order]) 6. flat. use_enum. Qed.
@@ -224,12 +207,20 @@ Proof.
   - right. use_enum.
   - left. is_null.
 Qed.
+(* inclusion of string lists decided by evaluation (the order of the schema's list is free) *)
+Lemma incl_by_eval (l1 l2 : list string) :
+  forallb (fun x => mem_str x l2) l1 = true -> forall s, In s l1 -> In s l2.
+Proof.
+  intros H s Hin. rewrite forallb_forall in H. apply mem_str_In. exact (H s Hin).
+Qed.
+
 Lemma iden_shape j : VK K_iden j -> name_doc false j.
 Proof.
   unfold VK. intros H. denote_in H (unf_in [K_iden]) 8. flat.
-  destruct j; try discriminate. inst. exists s. split; [reflexivity|]. split; simpl.
-  - apply match_ident_spec. assumption.
-  - match goal with E : enum_mem _ _ = false |- _ => exact (enum_mem_str_false _ _ E) end.
+  destruct j; try discriminate. inst. exists s. split; [reflexivity|]. split.
+  - unfold identP. apply match_ident_spec. assumption.
+  - match goal with E : enum_mem _ _ = false |- _ =>
+      intros Hin; apply (enum_mem_str_false _ _ E); revert Hin; apply incl_by_eval; vm_compute; reflexivity end.
 Qed.
 Lemma prefix_prop_shape j : VK K_prefix j -> name_doc false j.
 Proof.
@@ -296,7 +287,7 @@ Proof.
     flat. the_or.
     + left. match goal with T : has_type_in v [TStr] = true |- _ => destruct (has_type_str _ T) as [s ->] end.
       eexists; reflexivity.
-    + right. the_or. match goal with T : has_type_in v [TInt] = true |- _ => exact (as_int_of_type _ T) end.
+    + right. the_or. match goal with T : has_type_in v [TInt] = true |- _ => exact (int_type _ T) end.
   - left. is_null.
 Qed.
 
@@ -324,15 +315,10 @@ Proof. unfold VK. intros H. denote_in H (unf_in ft_inl) 14. flat. int_ft_tac. Qe
 Theorem sint_ft_shape j : VK (FT "sint-ft") j -> int_ft_doc false sint_names j.
 Proof. unfold VK. intros H. denote_in H (unf_in ft_inl) 14. flat. int_ft_tac. Qed.
 
-Lemma as_int_enum2 x z a b :
-  as_int x = Some z -> enum_mem x [JInt a; JInt b] = true -> (z = a \/ z = b)%Z.
+Lemma int_enum2 z a b : enum_mem (JInt z) [JInt a; JInt b] = true -> (z = a \/ z = b)%Z.
 Proof.
-  unfold enum_mem. destruct x; simpl; try discriminate.
-  - intros [= ->] H. rewrite orb_false_r in H. apply orb_true_iff in H.
-    destruct H as [H|H]; apply Z.eqb_eq in H; auto.
-  - destruct f; simpl; try discriminate. destruct (Z.eqb (num mod Z.pos den) 0) eqn:E; [|discriminate].
-    intros [= <-] H. rewrite orb_false_r in H. apply orb_true_iff in H.
-    destruct H as [H|H]; apply Z.eqb_eq in H; subst num; [left|right]; apply Z.div_mul; lia.
+  unfold enum_mem. simpl. intros H. rewrite orb_false_r in H. apply orb_true_iff in H.
+  destruct H as [H|H]; apply Z.eqb_eq in H; auto.
 Qed.
 Lemma jeq_str x s : has_type_in x [TStr] = true -> jeq x (JStr s) = true -> str_in [s] x.
 Proof.
@@ -361,8 +347,8 @@ Proof.
     + right. destruct (has_type_arr _ Ta) as [l0 ->].
       specialize (I l0 eq_refl). specialize (L2 l0 eq_refl). specialize (L2' l0 eq_refl).
       destruct l0 as [|a [|b [|c l0]]]; simpl in *; try lia.
-      exists a, b. split; [reflexivity|]. split; apply as_int_of_type; apply I; simpl; auto.
-    + left. exact (as_int_of_type _ Ti).
+      exists a, b. split; [reflexivity|]. split; apply int_type; apply I; simpl; auto.
+    + left. exact (int_type _ Ti).
 Qed.
 
 Ltac enum_ft_tac :=
@@ -376,8 +362,8 @@ Ltac enum_ft_tac :=
     | use_keys ] end.
 
 Lemma mappings_of x :
-  ((has_type_in x [TObj] = true /\ True) /\
-   (forall m0, x = JObj m0 ->
+  has_type_in x [TObj] = true ->
+  (forall m0, x = JObj m0 ->
       (forall k x0, In (k, x0) m0 -> pat_match PAny k = true ->
          has_type_in x0 [TArr] = true /\
          (forall l, x0 = JArr l -> 1 <= List.length l) /\
@@ -387,35 +373,32 @@ Lemma mappings_of x :
              (forall l0, x1 = JArr l0 -> 2 <= List.length l0) /\
              (forall l0, x1 = JArr l0 -> List.length l0 <= 2) /\ True \/
              (has_type_in x1 [TArr] = false \/ False) /\ has_type_in x1 [TInt] = true /\ True) /\ True) /\
-         True) /\ True) /\
-   (forall m0, x = JObj m0 -> 1 <= List.length m0) /\ True \/
-   (has_type_in x [TObj] = false \/ False) /\ has_type_in x [TNull] = true /\ True) ->
+         True) /\ True) ->
+  (forall m0, x = JObj m0 -> 1 <= List.length m0) ->
   mappings_doc false x.
 Proof.
-  intros H. the_or.
-  - right. match goal with T : has_type_in x [TObj] = true |- _ => destruct (has_type_obj _ T) as [mm ->] end.
-    inst. flat. exists mm. split; [reflexivity|]. split; [apply nonempty_of_length; assumption|].
-    intros k v Hkv.
-    match goal with X : forall k x0, In (k, x0) mm -> _ |- _ => specialize (X k v Hkv eq_refl) end. flat.
-    apply enum_mapping_of; auto.
-    intros l E r Hr. match goal with X : forall l, v = JArr l -> forall x1, In x1 l -> _ |- _ =>
-      specialize (X l E r Hr) end. flat. the_or.
-    + left. repeat split; auto. intros l0 E0 y Hy.
-      match goal with X : forall l0, r = JArr l0 -> forall x2, In x2 l0 -> _ |- _ =>
-        destruct (X l0 E0 y Hy) as [A _]; exact A end.
-    + right. assumption.
-  - left. split; [reflexivity|is_null].
+  intros T A L. destruct (has_type_obj _ T) as [mm ->].
+  destruct (A mm eq_refl) as [A' _]. specialize (L mm eq_refl).
+  exists mm. split; [reflexivity|]. split; [apply nonempty_of_length; assumption|].
+  intros k v Hkv. specialize (A' k v Hkv eq_refl). flat.
+  apply enum_mapping_of; auto.
+  intros l E r Hr. match goal with X : forall l, v = JArr l -> forall x1, In x1 l -> _ |- _ =>
+    specialize (X l E r Hr) end. flat. the_or.
+  - left. repeat split; auto. intros l0 E0 y Hy.
+    match goal with X : forall l0, r = JArr l0 -> forall x2, In x2 l0 -> _ |- _ =>
+      destruct (X l0 E0 y Hy) as [A0 _]; exact A0 end.
+  - right. assumption.
 Qed.
 
 Theorem uenum_ft_shape j : VK (FT "uenum-ft") j -> enum_ft_doc false uenum_names j.
 Proof.
   unfold VK. intros H. denote_in H (unf_in ft_inl) 14. flat. enum_ft_tac.
-  apply mappings_of. assumption.
+  apply mappings_of; assumption.
 Qed.
 Theorem senum_ft_shape j : VK (FT "senum-ft") j -> enum_ft_doc false senum_names j.
 Proof.
   unfold VK. intros H. denote_in H (unf_in ft_inl) 14. flat. enum_ft_tac.
-  apply mappings_of. assumption.
+  apply mappings_of; assumption.
 Qed.
 
 Theorem real_ft_shape j : VK (FT "real-ft") j -> real_ft_doc false j.
@@ -424,8 +407,9 @@ Proof.
   to_obj j. eexists; split; [reflexivity|]. repeat split.
   - req. use_const.
   - req. match goal with S : V S3 (SRef K_int_size) ?x |- _ =>
-      destruct (int_size_shape _ S) as (z & Ez & _) end.
-    exists z. split; [assumption|]. eapply as_int_enum2; eassumption.
+      destruct (int_size_shape _ S) as (z & -> & _) end.
+    match goal with E : enum_mem (JInt z) _ = true |- _ => destruct (int_enum2 _ _ _ E) as [-> | ->] end;
+      [left|right]; reflexivity.
   - opt. vk opt_int_min_1_shape.
   - use_keys.
 Qed.
